@@ -17,7 +17,7 @@ LEVY = ['none', 'space-time', 'davie', 'foster']
 def random_config(rng, allow_cache0=False, allow_halfway=True):
     shape = rng.choice([(), (3,), (2, 3), (1, 2)])
     cfg = dict(t0=rng.choice([0.0, -1.0, 0.25]), span=rng.choice([1.0, 2.0, 0.5, 1.0, 10.0, 37.5]), size=shape,
-               levy=rng.choice(LEVY), entropy=rng.randrange(1 << 30),
+               levy=rng.choice(LEVY), entropy=(0 if rng.random() < 0.15 else rng.randrange(1 << 30)),  # 0 is a valid (falsy) seed
                cache_size=rng.choice(([0] if allow_cache0 else []) + [1, 2, 3, 45, None]),
                dt=rng.choice([None, None, 0.05, 0.3]), tol=0.0, halfway=False)
     if allow_halfway and rng.random() < 0.25:
@@ -427,7 +427,35 @@ def requery_search(rng, n_cfg, n_hist):
             fails.append(dict(kind='exception', config=_ser(cfg), error=f"{type(e).__name__}: {str(e)[:120]}"))
         if len(fails) >= 2:
             break
-    return fails, st
+    # adjoint-shaped scenario on a dyadic grid: a forward sweep of N = 2^k equal steps with dt inferred mid-history (the dependency
+    # tree is built after the warm-up and its mid points COINCIDE with existing node boundaries), then, going backwards, a query
+    # strictly inside each step followed by the step itself again; Levy areas included
+    for _ in range(max(1, n_cfg // 6)):
+        N = rng.choice([128, 256])
+        cfg = dict(t0=rng.choice([0.0, -1.0]), span=rng.choice([1.0, 2.0]), size=rng.choice([(2, 3), (1, 2), (3,)]),
+                   levy=rng.choice(['davie', 'foster', 'space-time']), entropy=rng.randrange(1 << 30),
+                   cache_size=rng.choice([45, 3, None]), dt=None, tol=0.0, halfway=False)
+        try:
+            bm = build(cfg)
+            h = cfg['span'] / N
+            steps = [(cfg['t0'] + k * h, cfg['t0'] + (k + 1) * h) for k in range(N)]
+            first = [query(bm, a, b, cfg) for a, b in steps]
+            st['queries'] += N
+            bad = None
+            for k in range(N - 1, -1, -1):
+                a, b = steps[k]
+                query(bm, a + 0.5 * h, b, cfg)
+                st['requeries'] += 1
+                if not _eq(query(bm, a, b, cfg), first[k]):
+                    bad = dict(kind='requery', config=_ser(cfg), scenario=f"forward sweep of {N} steps of {h}, then backwards: half step "
+                               f"inside step {k}, then the step again", interval=[a, b])
+                    break
+            st['configs'] += 1
+            if bad:
+                fails.append(bad)
+        except Exception as e:  # noqa
+            fails.append(dict(kind='exception', config=_ser(cfg), error=f"{type(e).__name__}: {str(e)[:120]}"))
+    return fails[:3], st
 
 
 def reproducibility_search(rng, n_cfg, n_hist):
@@ -549,12 +577,22 @@ def robustness_search(rng, n_cfg, n_long):
                dict(cache_size=1), dict(halfway=True, tol=1e-3, dt=None), dict(halfway=True, tol=1e-6, dt=None),
                dict(halfway=True, tol=1e-4, dt=None, subtol=True), dict(tol=1e-3, subtol=True),
                dict(halfway=True, tol=5e-4, dt=None, subtol=True), dict(halfway=True, tol=2e-3, dt=None, subtol=True),
-               dict(tol=5e-4, subtol=True)]:
+               dict(tol=5e-4, subtol=True),
+               # end points of [t0, t1] that are NOT on the rounding grid (e.g. taken from a float32 ts): queries touching them
+               dict(tol=1e-6, t0=0.1234562, span=1.0 - 0.1234562, ends=True),
+               dict(halfway=True, tol=1e-6, dt=None, t0=0.0, span=0.9999996, ends=True),
+               dict(tol=1e-3, t0=0.10000000149011612, span=0.8, dt=1e-2, ends=True),
+               dict(halfway=True, tol=1e-4, dt=None, t0=-0.33333334, span=1.0, ends=True)]:
         cfg = dict(t0=0.0, span=1.0, size=(2,), levy='space-time', entropy=7, cache_size=45, dt=None, tol=0.0, halfway=False)
         subtol = kw.pop('subtol', False)
+        ends = kw.pop('ends', False)
         cfg.update(kw)
         n = 130
-        hist = [(i / n, (i + 1) / n) for i in range(n)]
+        hist = [(cfg['t0'] + cfg['span'] * i / n, cfg['t0'] + cfg['span'] * (i + 1) / n) for i in range(n)]
+        if ends:
+            a0, a1 = cfg['t0'], cfg['t0'] + cfg['span']
+            hist = [(a0 + 0.3 * cfg['span'], a0 + 0.6 * cfg['span']), (a0, a0 + 0.2 * cfg['span']), (a1 - 0.3 * cfg['span'], a1),
+                    (a0, a1)] + hist[:40] + hist[-40:]
         if subtol:
             tol = 10.0 ** int(math.log10(cfg['tol']))  # resolution of the rounding grid
             hist = hist[:20]
